@@ -133,7 +133,21 @@ pub fn pick_size(rng: &mut Rng) -> usize {
 /// delivery order over 1-based fragment indices
 pub fn delivery(rng: &mut Rng, n: usize, lost: &[usize], ncoded: usize, o: &mut Out) -> Vec<u32> {
     let mut data: Vec<u32> = (1..=n as u32).filter(|i| !lost.contains(&(*i as usize - 1))).collect();
-    let mut coded: Vec<u32> = (1..=ncoded as u32).map(|k| n as u32 + k).collect();
+    // coded-fragment numbers: mostly 1.., sometimes late in the transmission (fragment numbers around and above
+    // 2^14, the largest TS004 coded-fragment numbers, PRBS seeds >= 2^23)
+    let base: u32 = match rng.below(8) {
+        0 => (16384u32 - (n as u32).min(16380)).saturating_sub(rng.range(0, 6) as u32),
+        1 => *rng.pick(&[8380u32, 8381, 16000, 16383 - ncoded as u32 % 16000]),
+        _ => 0,
+    };
+    if base != 0 {
+        o.stat("coded-numbers-late");
+    }
+    let mut coded: Vec<u32> = (1..=ncoded as u32)
+        .map(|k| base + k)
+        .filter(|k| crate::rows::parity_row(*k, n, crate::rows::ffr()).is_some())
+        .map(|k| n as u32 + k)
+        .collect();
     let style = rng.below(5);
     o.stat(&format!("order-{}", ["in-order", "shuffled", "coded-first", "duplicates", "interleaved"][style as usize]));
     let mut seq: Vec<u32> = vec![];
